@@ -336,11 +336,12 @@ def _check_stmt_batch_impl(args) -> dict:
 
 # node classes whose text is a Python expression on its own (operators, literals, references, calls, comprehensions, type
 # annotations, declared names): the text a span of such a node cuts out must parse as one - a span that starts one token
-# early or ends one late (a quote, `if`, `:`, `=`) does not
+# early or ends one late (a quote, `if`, `:`, `=`) does not.  (Not in the list: ImportAsName - `name as alias` is a clause of
+# the import statement, not an expression.)
 EXPRESSION_CLASSES = {
 	'AltTypesName', 'AndBitwise', 'AndCompare', 'ArgumentLabel', 'CallableType', 'ClassRef', 'Comparison', 'CustomType', 'DeclClassParam',
 	'DeclClassVar', 'DeclLocalVar', 'DeclParam', 'DeclThisParam', 'DeclThisVar', 'DeclThisVarForward', 'DecoratorPath', 'Dict', 'DictComp',
-	'DictType', 'DocString', 'Elipsis', 'Factor', 'Falsy', 'Float', 'FuncCall', 'Group', 'ImportAsName', 'Indexer', 'Integer', 'Lambda', 'List',
+	'DictType', 'DocString', 'Elipsis', 'Factor', 'Falsy', 'Float', 'FuncCall', 'Group', 'Indexer', 'Integer', 'Lambda', 'List',
 	'ListComp', 'ListType', 'LiteralDictType', 'LiteralType', 'NotCompare', 'Null', 'NullType', 'OrBitwise', 'OrCompare', 'Relay', 'RelayOfType',
 	'ShiftBitwise', 'String', 'Sum', 'Super', 'Term', 'TernaryOperator', 'ThisRef', 'Truthy', 'Tuple', 'TypesName', 'UnionType', 'Var',
 	'VarOfType', 'XorBitwise',
